@@ -77,6 +77,22 @@ func loadEngine(repo string, patterns []string) (*Engine, error) {
 	return e, nil
 }
 
+// initGhosts gives every declared ghost variable its entry value in a fresh state, so that
+// merges, loop heads and whole-state havoc see all of them (a ghost absent from a state
+// used to be read as its entry value even after a merge with a state that had changed it).
+func (e *Engine) initGhosts(st *State) {
+	var names []string
+	for n := range e.ghostSorts {
+		names = append(names, n)
+	}
+	sortStrings(names)
+	for _, n := range names {
+		st.ghost[n] = e.vc.declareNamed("G0_"+n, e.ghostSorts[n])
+	}
+	// the clock before the first reading of it
+	e.vc.assume("true", "(and (<= 0 G0_now) (< G0_now 4611686018427387904))")
+}
+
 // setDB installs the contract database and declares its ghost variables.
 func (e *Engine) setDB(db *ContractDB) {
 	e.db = db
@@ -270,6 +286,7 @@ func (e *Engine) verifyCasesExhaustive(c *Contract, cases []*Clause) (res *FuncR
 	}()
 	wm0 := vc.declareNamed("wm0", "Int")
 	st := &State{pc: "true", cells: map[*Cell]SV{}, heap: map[string]string{}, wm: wm0, ghost: map[string]string{}}
+	e.initGhosts(st)
 	var params []SV
 	for _, p := range fn.Params {
 		sv := e.freshSV(p.Type(), "p_"+p.Name(), "true", st)
@@ -336,7 +353,7 @@ func (e *Engine) verifyFunc1(c *Contract) (res *FuncResult) {
 			if c.PostsOnly {
 				var keep []*Obligation
 				for _, o := range vc.obligs {
-					if o.Cover || strings.HasPrefix(o.Kind, "post:") || strings.HasPrefix(o.Kind, "loop") || strings.HasPrefix(o.Kind, "cases") || strings.Contains(o.Kind, "safety:panic") || strings.HasPrefix(o.Kind, "preserves") || strings.HasPrefix(o.Kind, "assert_") {
+					if o.Cover || strings.HasPrefix(o.Kind, "post:") || strings.HasPrefix(o.Kind, "loop") || strings.HasPrefix(o.Kind, "cases") || strings.Contains(o.Kind, "safety:panic") || strings.HasPrefix(o.Kind, "preserves") || strings.HasPrefix(o.Kind, "assert_") || (os.Getenv("GOVC_PRE") != "" && strings.Contains(o.Kind, ":pre")) {
 						keep = append(keep, o)
 					}
 				}
@@ -395,6 +412,7 @@ func (e *Engine) genFunc(c *Contract, fn *ssa.Function, mode Mode, known map[str
 	wm0 := vc.declareNamed("wm0", "Int")
 	vc.assume("true", "(>= wm0 1)")
 	st := &State{pc: "true", cells: map[*Cell]SV{}, heap: map[string]string{}, wm: wm0, ghost: map[string]string{}}
+	e.initGhosts(st)
 	if known != nil {
 		names := make([]string, 0, len(known))
 		for k := range known {
